@@ -348,7 +348,8 @@ def run(ctx):
         evaluations=len(cases) + len(fcases) + len(lcases), distinct_nontrivial=n_checked,
         rule="explored histories cut at every position (optionally followed by a flow switch, a path jump or running "
              "into the end) then RESET, explored to depth %d in lock-step with a fresh instance; plus path jumps with "
-             "call-stack reset" % depth,
+             "call-stack reset; LIST programs: history (+ jump), RESET, the same walk or a jump to every knot / stitch, "
+             "the save shown after every line, in lock-step with a fresh instance" % depth,
         samples=[cases[1]["script"] if len(cases) > 1 else []],
         traces_validated_against_impl=agree, correspondence_mismatches=len(mism), programs=len(progs)))
     seen = set()
